@@ -39,7 +39,7 @@ impl Property for C12 {
     fn exhaustive_subspaces(&self, _tier: Tier) -> Vec<String> {
         vec!["every source length n<=min(capacity,320) x four value classes (incl. a small value in a long vector) x all 20x20 ordered type pairs x by-reference/by-value".into()]
     }
-    fn enumerate(&self, _tier: Tier, sh: &mut Shard, f: &mut dyn FnMut(C12Case) -> bool) {
+    fn enumerate(&self, tier: Tier, sh: &mut Shard, f: &mut dyn FnMut(C12Case) -> bool) {
         for s in 0..NT {
             for d in 0..NT {
                 if !sh.mine() {
@@ -56,6 +56,17 @@ impl Property for C12 {
                             }
                         }
                     }
+                }
+            }
+        }
+        for (t, n) in dense_lengths(tier) {
+            if !sh.mine() {
+                continue;
+            }
+            let a = dense_value(n);
+            for d in [TID_D, TID_A, 18u8, 11u8] {
+                if !f(C12Case::Convert { a: Operand::canon(t, a.clone()), dst: d, by_value: n % 2 == 0 }) {
+                    return;
                 }
             }
         }
